@@ -255,7 +255,7 @@ func (e *e2eEnv) dial(c E2ECase, bound time.Duration) (*varlink.Connection, *Pro
 		ctx, cancel := context.WithTimeout(context.Background(), bound)
 		defer cancel()
 		var lastErr error
-		for i := 0; i < 100; i++ {
+		for dl := time.Now().Add(bound); time.Now().Before(dl); {
 			conn, err := varlink.NewConnection(ctx, e.address)
 			if err == nil {
 				return conn, nil, nil
